@@ -23,7 +23,8 @@ ID = "C13"
 LEVEL = "exploration"
 RULE = ("uploads: body size {0,1,16383,16384,16385,65535,65536,100k,1M(,5M)} x body chunking {one, 1000-byte, 70000-byte, "
         "mixed} x server INITIAL_WINDOW_SIZE {1,100,16384,65535,1M} x MAX_FRAME_SIZE {16384,65536,2^24-1} x credit policy "
-        "{auto, drip:1, drip:1000, stream-first, conn-first, late, big-once} x 1-3 uploads sharing the connection window x "
+        "{auto, drip:1, drip:1000, stream-first, conn-first, late, big-once, dep = the first stream's credit is withheld until "
+        "the other concurrent uploads have arrived} x 1-3 uploads sharing the connection window x "
         "flavour (bounded to <= 6000 DATA frames per transfer); downloads {0,1,65535,1M,17M(,40M)}; 1100 x 16384-byte responses "
         "on one connection (each ending with a data-carrying END_STREAM frame; 18 MB > the 16 MiB credit); distinct+non-trivial = "
         "parameter tuple in which a window actually closed (ledger minimum <= 0) or the download exceeded the initial credit")
@@ -65,7 +66,12 @@ async def run_upload(flavor, p, cnt, v, sigs):
     net = simnet.Net()
     net.log_events = False
     settings = {SC_MCS: 100, SC_IWS: p["iws"], SC_MFS: p["mfs"]}
-    script = {"settings": settings, "win": p["policy"]}
+    win = p["policy"]
+    if win == "dep":
+        # the first upload's stream credit depends on the other uploads having arrived; a sequential (sync) caller cannot
+        # satisfy that, it gets the policy without the dependency
+        win = f"dep:{p['n']}" if flavor != "sync" else "dep:1"
+    script = {"settings": settings, "win": win}
     if p.get("iws_change") is not None:
         # the server changes INITIAL_WINDOW_SIZE while the upload is in progress (RFC 9113 6.9.2: a decrease can make
         # the stream window negative; the sender must wait until it is positive again)
@@ -254,7 +260,7 @@ def run_case(case):
 def plan(tier, seed):
     r = random.Random(seed * 53 + 13)
     sizes = [0, 1, 16383, 16384, 16385, 65535, 65536, 100_000, 1_000_000] + ([5_000_000] if tier != "quick" else [])
-    policies = ["auto", "drip:1", "drip:1000", "stream-first", "conn-first", "late", "big-once"]
+    policies = ["auto", "drip:1", "drip:1000", "stream-first", "conn-first", "late", "big-once", "dep", "dep"]
     params = []
     n_up = 420 if tier == "quick" else 6000
     while len(params) < n_up:
@@ -262,7 +268,7 @@ def plan(tier, seed):
         iws = r.choice([1, 100, 16384, 65535, 1_000_000])
         mfs = r.choice([16384, 65536, 2 ** 24 - 1])
         pol = r.choice(policies)
-        n = r.choice([1, 1, 2, 3])
+        n = r.choice([1, 1, 2, 3]) if pol != "dep" else r.choice([2, 2, 3])
         frames = size / max(1, min(iws, mfs, 16384 if pol != "drip:1" else 1))
         if pol == "drip:1":
             frames = size
